@@ -58,6 +58,7 @@ def make_config(rng, family):
     cfg["payload_class"] = _w(rng, [("tiny", 8), ("small", 3), ("b127", 1), ("b16k", 0.5 if family != "wire" else 3),
                                     ("b2m", 0.0 if family != "wire" else 0.3)])
     cfg["chunking"] = _w(rng, [("whole", 6), ("random", 3), ("bytes", 1)])
+    cfg["coalesce"] = rng.random() < 0.3
     cfg["faults"] = {
         "close": rng.random() < 0.7,
         "dup_ack": rng.random() < 0.6,
@@ -275,7 +276,11 @@ class Gen(object):
         return st
 
     def cut_for(self, w, addr, step):
-        """Optionally turn `dl` delivery into a chunked one."""
+        """Optionally turn `dl` delivery into a chunked one, or hold the packet back
+        so that it arrives in one chunk with later ones."""
+        if self.cfg.get("coalesce") and self.rng.random() < 0.35:
+            step["dl"] = False
+            return step
         ch = self.cfg["chunking"]
         if ch == "whole" or self.rng.random() < 0.5:
             return step
@@ -308,6 +313,14 @@ class Gen(object):
                 if what == "publish" and not cfg["profile"] & 2:
                     what = "unsubscribe"
                 b["on_pub_then"] = [self.reaction(addr, what, "any")]
+            if F["reentrant"] and cfg["handlers"][2] and rng.random() < 0.3:
+                # ... and from inside onMqttConnectionMade
+                what = rng.choice(["publish", "subscribe", "disconnect", "disconnect"])
+                if what == "publish" and not cfg["profile"] & 2:
+                    what = "subscribe"
+                if what == "subscribe" and not cfg["profile"] & 1:
+                    what = "publish"
+                b["on_made_then"] = [self.reaction(addr, what, "any")]
             return b
         phase = wc.transport.phase
         st = lc.state if lc is not None else "built"
@@ -454,7 +467,7 @@ class Gen(object):
             infl = 1 + (2 if (n_need or s.fifo or sess.tx_recd or sess.tx_unrec) else 0)
             acts.append(("close", 40 * fr * base * infl / 3.0))
         acts.append(("disconnect", {"closing": 2.0, "clean": 0.6, "persistent": 0.6}.get(fam, 0.25)))
-        acts.append(("gate", 2.0 if fam == "gate" else 0.15))
+        acts.append(("gate", 2.0 if fam == "gate" else (0.5 if fam == "keepalive" else 0.15)))
         if fam in ("gate", "hostile", "handshake"):
             acts.append(("foreign", 2.0 if fam == "gate" else 0.7))
         if fam == "args" or rng.random() < 0.03:
@@ -468,6 +481,11 @@ class Gen(object):
             acts.append(("stale", 0.5))
         if fam == "ids" and not getattr(self, "_placed", False) and any(r.pending for r in s.reqs) and rng.random() < 0.3:
             self._placed = True
+            pend = sorted(r.msgId for r in s.reqs if r.pending and isinstance(r.msgId, int))
+            if pend and rng.random() < 0.5:
+                # the counter as it stands one full cycle later, right before an identifier still in use
+                tgt = rng.choice(pend)
+                return {"op": "sim.set_id", "value": (tgt - 2) % 65535 + 1 if rng.random() < 0.7 else (tgt - 3) % 65535 + 1}
             return {"op": "sim.set_id", "value": rng.choice([65530, 65531, 65532, 65533, 65534, 65535])}
         k = _w(rng, acts)
         if k == "deliver":
